@@ -767,7 +767,13 @@ def execute(trace):
                     events.append([opi, site, "exc", exc])
                     return
                 arr = np.array(out, copy=True)
-                events.append([opi, site, list(arr.shape), nd, core.digest(core.enc_array(arr))[:16]])
+                # the event log records WHAT was returned, not the order of rows the property leaves free (members of a
+                # family, ties in sin(theta)/lambda): an implementation may even draw that order from private entropy
+                try:
+                    canon_rows = sorted(tuple(float(v) for v in r) for r in arr.tolist()) if arr.ndim == 2 else arr.tolist()
+                except Exception:
+                    canon_rows = repr(arr)
+                events.append([opi, site, list(arr.shape), core.digest(canon_rows)[:16]])
                 if op.get("scribble") and isinstance(out, np.ndarray) and out.size:
                     # the caller owns what it was handed and reuses it as scratch space
                     try:
